@@ -35,11 +35,14 @@ def topo(name: str, is_async: bool) -> GProg:
         "two": (s(), s(), c(0), c(1, res="m")),
         "chain": (s(), s(0), c(1)),
         "chain_plus": (s(), s(0), s(), c(1), c(2, res="a"), c(3, 4)),
+        # single string tags that contain one another: a selection by tag "enc" names node 0 only
+        "tagged": (GNode(setup=True, res="t", tag="enc"), GNode(setup=True, res="t", tag="enc_large"),
+                   GNode(edges=(Edge(0, "pos"), P), res="t", tag="use"), GNode(edges=(Edge(1, "pos"), P), res="t", tag="use_more")),
     }[name]
     return GProg(nodes=nodes, mc=2, is_async=is_async, params=(("x", NODEFAULT),))
 
 
-TOPOS = ["one", "two", "chain", "chain_plus", "none_chain", "deep"]
+TOPOS = ["one", "two", "chain", "chain_plus", "none_chain", "deep", "tagged"]
 
 
 def menu(p: GProg):
@@ -52,6 +55,9 @@ def menu(p: GProg):
          ("executor", {"T": [t1]}, "a"), ("executor", {"T": [t2]}, "a"), ("executor", {"X": [consumers[-1]]}, "a"),
          ("setup", None, None), ("setup", {"T": [t1]}, None), ("setup", {"T": [t2]}, None), ("deepcopy", None, None),
          ("mk_executor", None, None), ("run_executor", None, "c"), ("setup", {"T": [t3]}, None), ("setup", {"T": []}, None)]
+    if any(nd.tag is not None for nd in p.nodes):
+        m = m[:3] + [("setup", {"T": [0], "by_tag": True}, None), ("executor", {"T": [2], "by_tag": True}, "a"), ("setup", {"T": [2], "by_tag": True}, None),
+                     ("executor", {"T": [0], "by_tag": True}, "a"), ("setup", None, None), ("deepcopy", None, None)]
     return m
 
 
